@@ -115,6 +115,11 @@ func runC16(c *eng.Ctx, tier string) {
 		for _, a := range eng.FieldAccesses(f) {
 			if a.Write && a.Field.Is(setecPkg, "Store", "allowLookup") {
 				c.Check(f == newStore, "R-C16-1", f, a.In.Pos(), "write of Store.allowLookup", "the policy is fixed by the constructor", "written in "+eng.FName(f))
+				// ... as exactly what the configuration says: lookups are enabled by StoreConfig.AllowLookup and nothing else
+				if st, isSt := a.In.(*ssa.Store); isSt {
+					fr2, _, isF2 := eng.LoadedField(st.Val)
+					c.Check(isF2 && fr2.Is(setecPkg, "StoreConfig", "AllowLookup"), "R-C16-1", f, a.In.Pos(), "value of Store.allowLookup: "+eng.ValStr(st.Val), "the configuration's AllowLookup itself (no other circumstance turns lookups on)", "computed from something else")
+				}
 			}
 		}
 	}
